@@ -639,7 +639,10 @@ func (client *client) connectWithTimeOut() (ok bool) {
 
 			var connackPpt *packets.Properties
 			if client.version == packets.Version5 {
-				client.opts.MaxInflight = convertUint16(conn.Properties.ReceiveMaximum, client.opts.MaxInflight)
+				// the window is bounded by both the client's Receive Maximum and the configured max_inflight
+				if rm := convertUint16(conn.Properties.ReceiveMaximum, client.opts.MaxInflight); rm < client.opts.MaxInflight {
+					client.opts.MaxInflight = rm
+				}
 				client.opts.ClientMaxPacketSize = convertUint32(conn.Properties.MaximumPacketSize, client.opts.ClientMaxPacketSize)
 				client.opts.ClientTopicAliasMax = convertUint16(conn.Properties.TopicAliasMaximum, client.opts.ClientTopicAliasMax)
 				client.opts.AuthMethod = conn.Properties.AuthMethod
